@@ -22,7 +22,7 @@ ID = 'C12'
 LEVEL = 'exploration'
 RULE = ('Hypothesis sequences (1-8 statements, then the host mutates its own object, then 1-3 more statements and a read of '
         'everything) over nested list/dict/tuple values (depth <= 4, shared sub-objects, host-supplied objects also held by '
-        'the host): the four assignment forms x = e, c[k] = e, x += e, c[k] += e with sources that are literals, variables, '
+        'the host, one of them with dict keys that are not strings, one that cannot be deep-copied): the four assignment forms x = e, c[k] = e, x += e, c[k] += e with sources that are literals, variables, '
         'elements, containers built from variables, x = x + [..], tuples from enumerate/items, map results, lambda parameters; '
         '1 case in 5 calls a host function hf whose body is a parsed multi-statement program (ast_names) that assigns from its '
         'parameter and mutates the copy or the source; mutations '
